@@ -429,10 +429,35 @@ func ConstArray(s Sort, v *Term) *Term {
 
 // ---- quantifiers ----
 
+// validPattern: triggers may not contain logical connectives, ite, equalities or comparisons
+func validPattern(t *Term) bool {
+	ok := true
+	t.walk(func(x *Term) {
+		switch x.Op {
+		case "and", "or", "not", "ite", "=>", "=", "<", "<=", ">", ">=", "forall", "exists", "distinct", "bvslt", "bvsle", "bvult", "bvule":
+			ok = false
+		}
+	})
+	return ok
+}
+
 func Forall(bound []*Term, body *Term, pats ...[]*Term) *Term {
 	if body.IsTrue() {
 		return TTrue
 	}
+	var good [][]*Term
+	for _, p := range pats {
+		v := len(p) > 0
+		for _, t := range p {
+			if !validPattern(t) {
+				v = false
+			}
+		}
+		if v {
+			good = append(good, p)
+		}
+	}
+	pats = good
 	return &Term{Op: "forall", Sort: SBool, Args: []*Term{body}, Bound: bound, Pats: pats}
 }
 func Exists(bound []*Term, body *Term) *Term {
